@@ -8,7 +8,7 @@ documented value of every ``loop`` attribute from the materialised list and neve
     rendered for every form of the iterable in the sync and the async environment ("envs"/"forms" are
     optional restrictions, used by minimised replays).
 
-``{"kind": "f", "env": "sync", "form": "gen", "items": [...], "filter": cond|null, "else": bool, "body": [stmt...]}``
+``{"kind": "f", "env": "sync", "form": "gen", "undef": "default"|"strict"|"debug"|"chainable", "items": [...], "filter": cond|null, "else": bool, "body": [stmt...]}``
     Hypothesis part: loop filter, else branch, break / continue (loopcontrols extension), conditional queries.
 
 ``{"kind": "n", "env": "sync", "form": "gen", "rows": [[0, 1], [], [2]], "pos": "iter"|"filter"|"else", "a": "revindex", "direct": false}``
@@ -38,10 +38,13 @@ RULE = (
     "queries and 0-5 for 3 queries) x ordered query selections with repetition from {index, index0, revindex, revindex0, "
     "first, last, length, previtem, nextitem, depth, cycle, changed} (quick <= 2, thorough <= 3) x iteration masks (which iterations, by "
     "index modulo the mask length, run the queries: 1/10/01/001/011, thorough also 100 for <= 2 queries, 1/10/01 for 3) x 11 iterable-form/environment pairs, each rendered and compared with the "
-    "specification; (1b) enumerated nested loops: the outer loop attribute is read only inside the inner for tag's iterable, "
+    "specification, plus a block of loop.cycle argument shapes (one scalar, one list, one tuple, two scalars, a list among "
+    "several) alone and followed by last / length; (1b) enumerated nested loops: the outer loop attribute is read only inside the inner for tag's iterable, "
     "loop filter or else branch (3 positions x attributes x with/without an additional direct use x row sets (6 fixed ones plus all lists of <= 3, "
     "thorough <= 4, rows from {[], [0], [1,2], [3,0,1]}) x 11 "
-    "form/environment pairs of the outer iterable); (2) Hypothesis: loops with a loop filter, else branch, break/continue and conditional queries, and "
+    "form/environment pairs of the outer iterable); (1c) enumerated plain and recursive loops that print the missing neighbour (previtem "
+    "in the first, nextitem in the last iteration) under the default, strict, debug and chainable undefined types; "
+    "(2) Hypothesis (environment's undefined type drawn from those four): loops with a loop filter, else branch, break/continue and conditional queries, and "
     "recursive loops over trees of depth <= 4 with per-level forms, in sync and async (real event loop, async generators "
     "that suspend) environments. Non-trivial = (1) a look-ahead attribute (last, nextitem, length, revindex, revindex0) "
     "queried on some but not all iterations of a sequence with >= 2 items (every case renders unsized forms); (1b) the outer "
@@ -52,7 +55,10 @@ RULE = (
 ASSUMPTIONS = [
     "attribute values transcribed from docs/templates.rst (loop variable table, loop filtering, else, recursive loops) "
     "and docs/extensions.rst (loop controls); attributes of a filtered loop describe the filtered sequence",
-    "the default Undefined is used: previtem / nextitem at the ends are tested with 'is defined'",
+    "previtem / nextitem at the ends are the environment's undefined type (docs/api.rst: Undefined types): printing it "
+    "gives '' (default, chainable), a '{{ ... }}' placeholder whose wording is not compared (debug) or UndefinedError "
+    "(strict; also for == on it); the other queries guard them with 'is defined'",
+    "loop.cycle returns args[index0 % len(args)] (docstring): a single list or tuple argument is returned as is",
     "the iterable, the loop filter and the else branch of a for tag are outside that loop's own body: `loop` there is "
     "the enclosing loop's (tests/test_core_tags.py::test_loop_errors shows the tag's own loop is not visible there; "
     "docs: loop refers to the innermost loop whose body is being rendered)",
@@ -65,7 +71,27 @@ ASSUMPTIONS = [
 
 ATTRS = ["index", "index0", "revindex", "revindex0", "first", "last", "length", "previtem", "nextitem", "depth",
          "cycle", "changed"]
-EXTRA_ATTRS = ["depth0", "cycle1", "cycle2", "changedx"]
+EXTRA_ATTRS = ["depth0", "cycle1", "cycle2", "changedx", "cycleL", "cycleT", "cycleM", "prev_u", "next_u"]
+# argument shapes of loop.cycle: one scalar, one list, one tuple, two scalars, a list among several (cycle = three scalars)
+CYCLE_SHAPES = ["cycle1", "cycleL", "cycleT", "cycle2", "cycleM"]
+# prev_u / next_u USE the missing neighbour: ((loop.previtem if loop.previtem is undefined else 'I')|string)[:2]
+UNDEFS = ["default", "strict", "debug", "chainable"]
+UNDEFINED_ERROR = "<UndefinedError>"
+
+
+class _UndefUse(Exception):
+    """The specification reached a use of an undefined value that the environment's undefined type rejects."""
+
+
+def _edge_text(undef):
+    """First two characters of the printed undefined neighbour (docs/api.rst, Undefined types)."""
+    if undef == "strict":
+        raise _UndefUse()
+    if undef == "debug":
+        return "{{"  # DebugUndefined prints a {{ ... }} placeholder; its wording is not compared
+    if undef in ("default", "chainable"):
+        return ""
+    raise core.HarnessError("undefined type %r" % (undef,))
 LOOKAHEAD = {"last", "nextitem", "length", "revindex", "revindex0"}
 SYNC_FORMS = ["list", "tuple", "iter", "gen", "sized"]
 ASYNC_FORMS = ["list", "iter", "gen", "sized", "agen", "agen_s"]
@@ -105,6 +131,16 @@ def attr_value(name, i, vals, depth0, state):
         return depth0 + 1
     if name == "depth0":
         return depth0
+    if name == "cycleL":
+        return ["a", "b"]  # one list argument: that list on every iteration, printed as a list
+    if name == "cycleT":
+        return ("a", "b")
+    if name == "cycleM":
+        return (["a", "b"], "c")[i % 2]
+    if name == "prev_u":
+        return "I" if i > 0 else _edge_text(state.get("undef", "default"))
+    if name == "next_u":
+        return "I" if i < n - 1 else _edge_text(state.get("undef", "default"))
     if name.startswith("cycle"):
         k = int(name[5:] or 3)
         return "abc"[i % k]
@@ -119,6 +155,15 @@ def attr_value(name, i, vals, depth0, state):
 def attr_expr(name, item="x"):
     if name in ("previtem", "nextitem"):
         return "(loop.%s%s if loop.%s is defined else 'U')" % (name, item[1:], name)
+    if name == "cycleL":
+        return "loop.cycle(['a', 'b'])"
+    if name == "cycleT":
+        return "loop.cycle(('a', 'b'))"
+    if name == "cycleM":
+        return "loop.cycle(['a', 'b'], 'c')"
+    if name in ("prev_u", "next_u"):
+        a = "loop.previtem" if name == "prev_u" else "loop.nextitem"
+        return "((%s if %s is undefined else 'I')|string)[:2]" % (a, a)
     if name.startswith("cycle"):
         k = int(name[5:] or 3)
         return "loop.cycle(%s)" % ", ".join("'%s'" % c for c in "abc"[:k])
@@ -131,7 +176,7 @@ def attr_expr(name, item="x"):
     raise core.HarnessError("attribute %r" % (name,))
 
 
-def cond_value(c, i, vals):
+def cond_value(c, i, vals, undef="default"):
     k = c["c"]
     x = vals[i]
     n = len(vals)
@@ -148,6 +193,8 @@ def cond_value(c, i, vals):
     if k == "first":
         return i == 0
     if k == "nexteq":
+        if i == n - 1 and undef == "strict":
+            raise _UndefUse()  # comparing a StrictUndefined raises
         return i < n - 1 and vals[i + 1] == c["k"]
     if k == "reveq":
         return n - i - 1 == c["k"]
@@ -252,11 +299,11 @@ def _run_stmts(stmts, i, vals, state, out):
         if s["t"] == "q":
             out.append("," + str(attr_value(s["a"], i, vals, 0, state)))
         elif s["t"] == "ctl":
-            if cond_value(s["cond"], i, vals):
+            if cond_value(s["cond"], i, vals, state.get("undef", "default")):
                 out.append("!")
                 raise _Ctl(s["what"])
         else:
-            if cond_value(s["cond"], i, vals):
+            if cond_value(s["cond"], i, vals, state.get("undef", "default")):
                 _run_stmts(s["body"], i, vals, state, out)
 
 
@@ -264,14 +311,17 @@ def f_expected(case):
     """-> (text, facts)"""
     vals = [v for v in case["items"] if _filter_pass(case["filter"], v)]
     out = ["["]
-    state = {}
+    state = {"undef": case.get("undef", "default")}
     facts = {"removed": len(vals) != len(case["items"]), "else_due": not vals, "break": False, "continue": False,
-             "completed": 0, "iterations": 0}
+             "completed": 0, "iterations": 0, "undef_error": False}
     for i, x in enumerate(vals):
         facts["iterations"] += 1
         out.append(str(x))
         try:
             _run_stmts(case["body"], i, vals, state, out)
+        except _UndefUse:
+            facts["undef_error"] = True
+            return UNDEFINED_ERROR, facts
         except _Ctl as c:
             facts[c.what] = True
             if c.what == "break":
@@ -297,7 +347,8 @@ def r_source(case):
 
 
 def r_expected(case):
-    facts = {"maxdepth": 0, "removed": False, "else_due": False}
+    facts = {"maxdepth": 0, "removed": False, "else_due": False, "undef_error": False}
+    undef = case.get("undef", "default")
 
     def level(nodes, depth0):
         kept = [n for n in nodes if _filter_pass(case["filter"], n["v"])]
@@ -310,7 +361,7 @@ def r_expected(case):
             return ""
         facts["maxdepth"] = max(facts["maxdepth"], depth0 + 1)
         vals = [n["v"] for n in kept]
-        state = {}
+        state = {"undef": undef}
         out = []
         for i, n in enumerate(kept):
             out.append("<%d:%d:%d" % (n["v"], depth0 + 1, depth0))
@@ -320,7 +371,11 @@ def r_expected(case):
             out.append(">")
         return "".join(out)
 
-    return level(case["tree"], 0), facts
+    try:
+        return level(case["tree"], 0), facts
+    except _UndefUse:
+        facts["undef_error"] = True
+        return UNDEFINED_ERROR, facts
 
 
 # ----------------------------------------------------------------------------------------
@@ -385,15 +440,20 @@ def _drive(coro):
 _memo = {}
 
 
-def _template(envkind, src):
-    key = (envkind, src)
+def _template(envkind, src, undef="default"):
+    key = (envkind, src, undef)
     t = _memo.get(key)
     if t is None:
+        import jinja2
         from jinja2 import Environment
 
         if len(_memo) > 32:
             _memo.clear()
-        env = Environment(enable_async=envkind == "async", extensions=["jinja2.ext.loopcontrols"])
+        if undef not in UNDEFS:
+            raise core.HarnessError("undefined type %r" % (undef,))
+        ucls = {"default": jinja2.Undefined, "strict": jinja2.StrictUndefined, "debug": jinja2.DebugUndefined,
+                "chainable": jinja2.ChainableUndefined}[undef]
+        env = Environment(enable_async=envkind == "async", extensions=["jinja2.ext.loopcontrols"], undefined=ucls)
         t = _memo[key] = env.from_string(src)
     return t
 
@@ -430,11 +490,16 @@ def _check_q(case):
     return core.Outcome(nontrivial, labels)
 
 
-def _render_one(envkind, src, ctx):
-    t = _template(envkind, src)
-    if envkind == "sync":
-        return t.render(ctx)
-    return asyncio.run(t.render_async(ctx))
+def _render_one(envkind, src, ctx, undef="default"):
+    from jinja2 import UndefinedError
+
+    t = _template(envkind, src, undef)
+    try:
+        if envkind == "sync":
+            return t.render(ctx)
+        return asyncio.run(t.render_async(ctx))
+    except UndefinedError:
+        return UNDEFINED_ERROR
 
 
 def _check_f(case):
@@ -443,18 +508,22 @@ def _check_f(case):
         raise core.HarnessError("form %s in %s environment" % (form, envkind))
     exp, facts = f_expected(case)
     src = f_source(case)
-    got = _render_one(envkind, src, {"seq": make_iterable(form, case["items"])})
+    undef = case.get("undef", "default")
+    got = _render_one(envkind, src, {"seq": make_iterable(form, case["items"])}, undef)
     if got != exp:
         raise core.Violation(
             "loop output differs from the specification\n template: %s\n seq: %s form of %r, %s environment\n expected: %r\n"
-            " observed: %r" % (src, form, case["items"], envkind, exp, got), expected=exp, observed=got, source=src)
-    labels = ["kind_f", "env_" + envkind, "form_" + form]
+            " observed: %r" % (src, form, case["items"], envkind + "/" + undef + "-undefined", exp, got),
+            expected=exp, observed=got, source=src)
+    labels = ["kind_f", "env_" + envkind, "form_" + form, "undef_" + undef]
+    if facts["undef_error"]:
+        labels.append("exp_undefined_error")
     for k in ("removed", "else_due", "break", "continue"):
         if facts[k]:
             labels.append("f_" + k)
     if case["filter"]:
         labels.append("f_filter")
-    if case["else"] and facts["iterations"] > 0 and facts["completed"] == 0:
+    if case["else"] and facts["iterations"] > 0 and facts["completed"] == 0 and not facts["undef_error"]:
         labels.append("f_else_no_iteration_completed")
     nontrivial = facts["removed"] or facts["else_due"] or facts["break"] or facts["continue"]
     return core.Outcome(nontrivial, labels)
@@ -470,13 +539,18 @@ def _check_r(case):
         raise core.HarnessError("form %s in %s environment" % (cform, envkind))
     exp, facts = r_expected(case)
     src = r_source(case)
-    got = _render_one(envkind, src, {"tree": _build_tree(case["tree"], cform)})
+    undef = case.get("undef", "default")
+    got = _render_one(envkind, src, {"tree": _build_tree(case["tree"], cform)}, undef)
     if got != exp:
         raise core.Violation(
             "recursive loop output differs from the specification\n template: %s\n tree: %r (%s containers), %s environment\n"
-            " expected: %r\n observed: %r" % (src, case["tree"], cform, envkind, exp, got),
+            " expected: %r\n observed: %r" % (src, case["tree"], cform, envkind + "/" + undef + "-undefined", exp, got),
             expected=exp, observed=got, source=src)
-    labels = ["kind_r", "env_" + envkind, "form_" + cform, "r_depth_%d" % facts["maxdepth"]]
+    labels = ["kind_r", "env_" + envkind, "form_" + cform, "r_depth_%d" % facts["maxdepth"], "undef_" + undef]
+    if facts["undef_error"]:
+        labels.append("exp_undefined_error")
+    if set(case["q"]) & {"prev_u", "next_u"} and facts["maxdepth"] >= 1:
+        labels.append("r_neighbour_used_" + undef)
     if facts["removed"]:
         labels.append("r_removed")
     if facts["else_due"]:
@@ -581,6 +655,30 @@ def n_cases(tier):
                                    "direct": direct}
 
 
+# -- enumerated: the missing neighbour is used, under every undefined type (kinds f and r) ------
+
+_U_ITEMS = [[], [1], [1, 2, 3]]
+_U_TREES = [[{"v": 1, "c": []}],
+            [{"v": 1, "c": [{"v": 2, "c": []}, {"v": 3, "c": []}]}, {"v": 2, "c": []}],
+            [{"v": 0, "c": [{"v": 1, "c": [{"v": 2, "c": []}]}]}]]
+
+
+def u_cases(tier):
+    for undef in UNDEFS:
+        for a in ("prev_u", "next_u"):
+            for envkind in ("sync", "async"):
+                for form in _forms(envkind):
+                    for items in _U_ITEMS:
+                        yield {"kind": "f", "env": envkind, "form": form, "undef": undef, "items": items, "filter": None,
+                               "else": False, "body": [{"t": "q", "a": a}]}
+                        yield {"kind": "f", "env": envkind, "form": form, "undef": undef, "items": items, "filter": None,
+                               "else": True, "body": [{"t": "if", "cond": {"c": "idx", "k": 2, "r": 0},
+                                                       "body": [{"t": "q", "a": a}]}]}
+                    for tree in _U_TREES:
+                        yield {"kind": "r", "env": envkind, "cform": form, "undef": undef, "tree": tree, "q": [a],
+                               "filter": None, "else": False}
+
+
 def check_case(case):
     kind = case["kind"]
     if kind == "n":
@@ -612,11 +710,14 @@ def _sequences(minlen, maxlen):
 
 
 def q_cases(tier):
+    shapes = [[a] for a in CYCLE_SHAPES] + [[a, b] for a in CYCLE_SHAPES for b in ("last", "length")]
     if tier == "quick":
-        blocks = [(_selections(2), ["1", "10", "01", "001", "011"], 4)]
+        blocks = [(_selections(2), ["1", "10", "01", "001", "011"], 4),
+                  (shapes, ["1", "10", "01"], 4)]
     else:
         blocks = [(_selections(2), ["1", "10", "01", "001", "011", "100"], 6),
-                  (_selections(3, exactly=3), ["1", "10", "01"], 5)]
+                  (_selections(3, exactly=3), ["1", "10", "01"], 5),
+                  (shapes, ["1", "10", "01", "001", "011", "100"], 5)]
     for sels, masks, maxlen in blocks:
         for q in sels:
             for mask in masks:
@@ -670,7 +771,7 @@ def _strategies():
     @st.composite
     def f_case(draw):
         envkind, form = draw(env_form())
-        return {"kind": "f", "env": envkind, "form": form,
+        return {"kind": "f", "env": envkind, "form": form, "undef": draw(st.sampled_from(UNDEFS)),
                 "items": draw(st.lists(st.integers(0, 5), max_size=7)),
                 "filter": draw(st.one_of(st.none(), x_cond())),
                 "else": draw(st.booleans()),
@@ -693,7 +794,7 @@ def _strategies():
     def r_case(draw):
         envkind, cform = draw(env_form())
         tree = _prune(draw(st.lists(node, min_size=1, max_size=3)), 4)
-        return {"kind": "r", "env": envkind, "cform": cform, "tree": tree,
+        return {"kind": "r", "env": envkind, "cform": cform, "undef": draw(st.sampled_from(UNDEFS)), "tree": tree,
                 "q": draw(st.lists(attr, max_size=3)),
                 "filter": draw(st.one_of(st.none(), x_cond())),
                 "else": draw(st.booleans())}
@@ -713,6 +814,7 @@ def run_shard(spec, ctx):
             if len(rec.violations) >= 3:
                 break
     core.enum_shard(core.sliced(n_cases(ctx.tier), ctx.index, ctx.nshards), check_case, ctx, rec=rec)
+    core.enum_shard(core.sliced(u_cases(ctx.tier), ctx.index, ctx.nshards), check_case, ctx, rec=rec)
     f_case, r_case = _strategies()
     core.hyp_shard(f_case, check_case, ctx, ctx.pick(2500, 30000), rec=rec, tag="f")
     core.hyp_shard(r_case, check_case, ctx, ctx.pick(1200, 15000), rec=rec, tag="r")
@@ -735,7 +837,8 @@ def _minimise_q(rec, case):
 
 def floors(total, tier):
     lab = total.labels
-    need = {"kind_q": 1000, "q_lookahead_partial": 1000, "kind_f": 1000, "kind_r": 500, "kind_n": 1000, "n_only_nested": 500, "f_removed": 200, "f_else_due": 100,
+    need = {"kind_q": 1000, "q_lookahead_partial": 1000, "kind_f": 1000, "kind_r": 500, "kind_n": 1000, "n_only_nested": 500, "r_neighbour_used_strict": 30,
+            "r_neighbour_used_debug": 30, "r_neighbour_used_chainable": 30, "exp_undefined_error": 50, "f_removed": 200, "f_else_due": 100,
             "f_break": 200, "f_continue": 200, "r_depth_3": 50, "r_else_due": 100, "env_async": 500, "form_agen_s": 50}
     low = ["%s=%d<%d" % (k, lab.get(k, 0), v) for k, v in need.items() if lab.get(k, 0) < v]
     if low:
